@@ -115,7 +115,7 @@ type c08Sys struct {
 
 func c08NewSys(cfg *c08Cfg, res *mc.Result) *c08Sys {
 	clk := &c08Clock{t: c08Base}
-	pl := c08NewPlugin(cfg.args, clk)
+	pl := c08NewPlugin(cfg.args.DeepCopy(), clk) // own copy: nothing a plugin instance does to its arguments may reach another instance
 	s := &c08Sys{cfg: cfg, clk: clk, pl: pl, cache: pl.podAssignCache, metric: map[string]*c08MetricRef{}, descs: map[*corev1.Pod]string{}, res: res}
 	for _, k := range cfg.kinds {
 		p := &c08PodRef{kind: k, inf: c08Pending, spec: k.Base, res: c08ResNone}
@@ -514,7 +514,7 @@ func (s *c08Sys) Invariants() []mc.Violation {
 		mr := s.metric[node]
 		// ---- differential: fresh cache, current metric first, then the assigned pods with their recorded timestamps
 		fclk := &c08Clock{t: c08Base}
-		fresh := c08NewPlugin(s.cfg.args, fclk).podAssignCache
+		fresh := c08NewPlugin(s.cfg.args.DeepCopy(), fclk).podAssignCache
 		if mr != nil {
 			fresh.AddOrUpdateNodeMetric(mr.obj)
 		}
